@@ -145,6 +145,8 @@ def hostile_value(r, pieces=PIECES):
     if pieces is PIECES and r.random() < 0.06:
         # white space, then what would be special in first position (only a value that STARTS with a quote is taken as quoted)
         return r.choice([" ", "\t", "\n", "  "]) + r.choice(['"', "'", ":", "not"]) + r.choice(["x", 'y"; discard; stop', "gone'", ""])
+    if r.random() < 0.04:
+        return ""       # the empty string is a string: a null reverse-path, an empty subject, a list of one empty key
     while True:
         v = "".join(r.choice(pieces) for _ in range(r.randint(1, 4)))
         # a leading quote is "already quoted" for the factory (outside the claim); a leading ':' makes an action
